@@ -76,3 +76,71 @@ example : sepEnc sep [strOfString "ab", strOfString "c"] ≠ sepEnc sep [strOfSt
   decide +kernel
 
 end Prom.C15
+
+namespace Prom.C15
+open Prom
+
+/-- **order_free (const labels)** — `Desc::new` returns the *same descriptor* (id, dimension hash,
+    sorted const-label pairs, everything) for every iteration order of the const-label map: the
+    result depends on neither the insertion order nor the hash seed of the `HashMap`. -/
+theorem order_free_const (fq help : Str) (vl : List Str) (cl cl' : List (Str × Str)) (hp : cl.Perm cl') :
+    Desc.new fq help vl cl = Desc.new fq help vl cl' := by
+  unfold Desc.new
+  by_cases hh : help.isEmpty = true
+  · simp [hh]
+  · simp only [hh, Bool.false_eq_true, if_false]
+    by_cases hm : isValidMetricName fq = true
+    · simp only [hm, Bool.not_true, Bool.false_eq_true, if_false]
+      rw [← constNames_perm_invariant cl cl' hp]
+      cases hc : constNames cl [] with
+      | none => rfl
+      | some cn =>
+        simp only []
+        have hsome := (constNames_isSome_iff cl []).1 (by rw [hc]; rfl)
+        have hnd : (cl.map (·.1)).Nodup := hsome.2.1
+        cases hv : varNames vl cn with
+        | none => rfl
+        | some names =>
+          simp only []
+          have e1 : cn.map (lookup cl) = cn.map (lookup cl') := by
+            apply List.map_congr_left
+            intro k _
+            exact lookup_perm_invariant hp hnd k
+          have e2 : stableSortBy lpLe (cl.map fun p => (⟨p.1, p.2⟩ : LabelPair)) = stableSortBy lpLe (cl'.map fun p => (⟨p.1, p.2⟩ : LabelPair)) := by
+            apply stableSortBy_perm_eq (le := lpLe)
+            · intro a b c; exact strLe_trans _ _ _
+            · intro a b; exact strLe_total _ _
+            · exact hp.map _
+            · intro a b ha hb h1 h2
+              obtain ⟨p, hp1, rfl⟩ := List.mem_map.1 ha
+              obtain ⟨q, hq1, rfl⟩ := List.mem_map.1 hb
+              have hn : p.1 = q.1 := strLe_antisymm _ _ h1 h2
+              have : p = q := eq_of_nodup_map (·.1) hnd hp1 hq1 hn
+              rw [this]
+          rw [e1, e2]
+    · simp [hm]
+
+/-- **order_free (variable labels)** — acceptance, identity and dimension signature do not depend on
+    the order in which the variable labels are listed (the descriptor keeps the given order only in
+    its `variable_labels` field) -/
+theorem order_free_vars (fq help : Str) (vl vl' : List Str) (cl : List (Str × Str)) (hp : vl.Perm vl') :
+    (Desc.new fq help vl cl).map (fun d => (d.id, d.dimHash, d.constPairs)) =
+    (Desc.new fq help vl' cl).map (fun d => (d.id, d.dimHash, d.constPairs)) := by
+  unfold Desc.new
+  by_cases hh : help.isEmpty = true
+  · simp [hh]
+  · simp only [hh, Bool.false_eq_true, if_false]
+    by_cases hm : isValidMetricName fq = true
+    · simp only [hm, Bool.not_true, Bool.false_eq_true, if_false]
+      cases hc : constNames cl [] with
+      | none => rfl
+      | some cn =>
+        simp only []
+        have hs := (constNames_sorted_perm cl [] cn hc List.Pairwise.nil).1
+        rw [← varNames_perm_invariant vl vl' cn hp hs]
+        cases hv : varNames vl cn with
+        | none => rfl
+        | some names => rfl
+    · simp [hm]
+
+end Prom.C15
